@@ -137,7 +137,9 @@ def opt_coq(x):
 WPATH = {'view': 'WView', 'borrow': 'WBorrow', 'find': 'WFind', 'findb': 'WFindB', 'slice': 'WSlice',
          'bslice': 'WBSlice', 'slices': 'WSlices', 'itermut': 'WIterMut'}
 RPATH = {'iter': 'RIter', 'itermut': 'RIterMut', 'slices': 'RSlices', 'slice': 'RSlice', 'bslice': 'RBSlice'}
-DEC = {'c': 'DContinue', 'b': 'DBreak', 'C': 'DContinueDestroy', 'B': 'DBreakDestroy', 'p': 'DClosurePanic'}
+DEC = {'c': 'DContinue', 'b': 'DBreak', 'C': 'DContinueDestroy', 'B': 'DBreakDestroy', 'p': 'DClosurePanic',
+       # the same decisions returned as EcsStep::Continue / EcsStep::Break / () and converted by From
+       'd': 'DContinue', 'a': 'DBreak', 'u': 'DContinue'}
 
 
 def to_coq(op):
